@@ -41,10 +41,15 @@ fn gen_val(r: &mut Rng, max: u64) -> String {
     (0..r.below(max + 1)).map(|_| *r.pick(&VCHARS)).collect()
 }
 
-/// documented: fields of `text` split at "," selected by the range, without the trailing delimiter
-fn doc_fields(text: &str, l: &Option<i32>, sep: bool, rr: &Option<i32>) -> String {
-    let parts: Vec<&str> = text.split(',').collect();
-    let k = parts.len() as i64;
+/// documented: fields of `text` split at the delimiter's matches, selected by the range, as the
+/// stretch of the text from the first selected field to the last, without the trailing delimiter
+fn doc_fields(re: &Regex, text: &str, l: &Option<i32>, sep: bool, rr: &Option<i32>) -> String {
+    // field i (1-based) = text[starts[i-1] .. ends[i-1]]
+    let mut starts = vec![0usize];
+    let mut ends = Vec::new();
+    for m in re.find_iter(text) { ends.push(m.start()); starts.push(m.end()); }
+    ends.push(text.len());
+    let k = starts.len() as i64;
     let tr = |i: i64| if i < 0 { i + k + 1 } else { i };
     let (lo, hi) = match (l, sep, rr) {
         (Some(a), false, None) => (tr(*a as i64), tr(*a as i64)),
@@ -54,21 +59,24 @@ fn doc_fields(text: &str, l: &Option<i32>, sep: bool, rr: &Option<i32>) -> Strin
         (None, _, None) => (1, k),
         (None, false, Some(b)) => (tr(*b as i64), tr(*b as i64)),
     };
-    let sel: Vec<&str> = (1..=k).filter(|i| lo <= *i && *i <= hi).map(|i| parts[(i - 1) as usize]).collect();
-    sel.join(",")
+    let sel: Vec<i64> = (1..=k).filter(|i| lo <= *i && *i <= hi).collect();
+    match (sel.first(), sel.last()) {
+        (Some(a), Some(b)) => text[starts[(*a - 1) as usize]..ends[(*b - 1) as usize]].to_string(),
+        _ => String::new(),
+    }
 }
 fn render(v: &str) -> String { v.replace('\0', "\\0") }
 
-struct Ctx { idx: usize, cur: String, idxs: Vec<usize>, sels: Vec<String>, q: String, cq: String }
+struct Ctx { idx: usize, cur: String, idxs: Vec<usize>, sels: Vec<String>, q: String, cq: String, re: Regex }
 
 fn designated(p: &Ph, c: &Ctx) -> Vec<String> {
     let sels: Vec<(String, usize)> = if c.sels.is_empty() { vec![(c.cur.clone(), c.idx)] } else { c.sels.iter().cloned().zip(c.idxs.iter().cloned()).collect() };
     match p {
         Ph::Cur => vec![c.cur.clone()], Ph::Idx => vec![c.idx.to_string()], Ph::Q => vec![c.q.clone()], Ph::Cq => vec![c.cq.clone()],
-        Ph::Range(l, s, r) => vec![doc_fields(&c.cur, l, *s, r)],
+        Ph::Range(l, s, r) => vec![doc_fields(&c.re, &c.cur, l, *s, r)],
         Ph::Plus => sels.iter().map(|x| x.0.clone()).collect(),
         Ph::PlusIdx => sels.iter().map(|x| x.1.to_string()).collect(),
-        Ph::PlusRange(l, s, r) => sels.iter().map(|x| doc_fields(&x.0, l, *s, r)).collect(),
+        Ph::PlusRange(l, s, r) => sels.iter().map(|x| doc_fields(&c.re, &x.0, l, *s, r)).collect(),
     }
 }
 
@@ -85,13 +93,14 @@ fn main() {
     let mut distinct: BTreeSet<String> = BTreeSet::new();
     let mut samples = Vec::new();
     let mut fails = Vec::new();
-    let re = Regex::new(",").unwrap();
     let sh_every: u64 = a.extra.get("sh_every").map(|s| s.parse().unwrap()).unwrap_or(1);
     let ids: Vec<u64> = match a.only { Some(i) => vec![i], None => (0..a.n).collect() };
     for id in ids {
         let mut r = Rng::for_case(a.seed, id);
+        // the delimiter: usually a comma; sometimes a pattern that matches characters the escaping produces
+        let re = Regex::new(match r.below(8) { 0 => "'", 1 => "\\\\", 2 => "[',]", 3 => "[0\\\\]", _ => "," }).unwrap();
         let nsel = if r.chance(1, 2) { 0 } else { 1 + r.below(3) as usize };
-        let c = Ctx { idx: r.below(1000) as usize, cur: gen_val(&mut r, 8), idxs: (0..nsel).map(|_| r.below(50) as usize).collect(),
+        let c = Ctx { re: re.clone(), idx: r.below(1000) as usize, cur: gen_val(&mut r, 8), idxs: (0..nsel).map(|_| r.below(50) as usize).collect(),
                       sels: (0..nsel).map(|_| gen_val(&mut r, 6)).collect(), q: gen_val(&mut r, 5), cq: gen_val(&mut r, 4) };
         // template 1: shell text mixed with placeholders (compared with the model)
         let mut cmd = String::new();
@@ -109,7 +118,7 @@ fn main() {
         // template 2: placeholders only, read back through /bin/sh
         let probes: Vec<Ph> = (0..(1 + r.below(3))).map(|_| gen_ph(&mut r)).collect();
         let probe_cmd = format!("printf '%s\\0' {}", probes.iter().map(|p| ph_str(p, (0, 0))).collect::<Vec<_>>().join(" "));
-        let input = format!("cmd={:?} probe={:?} index={} current={:?} indices={:?} selections={:?} query={:?} cmd_query={:?}", cmd, probe_cmd, c.idx, c.cur, c.idxs, c.sels, c.q, c.cq);
+        let input = format!("delimiter={:?} cmd={:?} probe={:?} index={} current={:?} indices={:?} selections={:?} query={:?} cmd_query={:?}", re.as_str(), cmd, probe_cmd, c.idx, c.cur, c.idxs, c.sels, c.q, c.cq);
         let selrefs: Vec<&str> = c.sels.iter().map(|s| s.as_str()).collect();
         let ictx = InjectContext { delimiter: &re, current_index: c.idx, current_selection: &c.cur, indices: &c.idxs, selections: &selrefs, query: &c.q, cmd_query: &c.cq };
         let (cmd2, probe2) = (cmd.clone(), probe_cmd.clone());
